@@ -121,10 +121,10 @@ def run(ctx):
         "validity triples: the instants denoted by inception and expiration are less than 2^31 s from t; a distance of exactly 2^31 is undefined (RFC 1982) and not judged",
         "DS digest type 5 (the library's experimental SHA-512 constant; no RFC of the statement defines it) is not judged; types 0, 3, 255 must give no DS",
         "key life: the DNSKEY passed to NewPrivateKey/ReadPrivateKey is the one the text was exported from (documented requirement); generated keys are cached per run and algorithm except in the elliptic-curve stress loop",
-        "names in recorded events are written in the library's presentation form (UnpackDomainName), fully qualified",
+        "names in recorded events are written in the library's presentation form (UnpackDomainName), fully qualified; one in eight ds/hashname events re-spells some letters as \\DDD",
     ]
     return ctx.finish(rule="vectors: keytag = flags x protocol x algorithm x every key over {00,ff} up to 5 (thorough: 8) octets + keys of 255/256/257/1024 octets; "
-                      "ds = 5 owners x 4 case variants x 7 digest types x 4 keys; nsec3 = 5 names (4 case variants each) x salts 0/1/8/255 x iterations; "
+                      "ds = 5 owners x 5 spellings (4 case variants + all-\\DDD upper case) x 7 digest types x 4 keys; nsec3 = 5 names (5 spellings each) x salts 0/1/8/255 x iterations; "
                       "cover = 5^3 orderings x 7 zone/name pairs x owner-label case; validity = 11 instants x 2 epochs x 12^2 offsets; keylife = every behaviour "
                       "ending in a verification x 7 algorithm/size combinations + fresh-key round trips. events: seeded random. "
                       "distinct = distinct inputs; non-trivial = all (every one compared with a spec value)")
